@@ -526,6 +526,8 @@ Outcome exec_c12(const C12Case& c, bool keep_log, Stats* stats) {
     // "A function of the bytes alone": each of the (up to three) loads happens at a different simulated date.
     static const int64_t kNow[3] = {1790000000LL /* 2026-09 */, 1790000000LL + 1647LL * 86400 /* 2031-03 */, 883612800LL + 200LL * 86400 /* 1998-07 */};
     clk.active = true; clk.now = kNow[which % 3] + static_cast<int64_t>(c.sched_seed % 1000) * 86400;
+    ctypes.mode = which == 1 ? 1 : 0;   // ... and the second one under a different character classification (a non-C locale)
+    struct CtypeOff { ~CtypeOff() { ctypes.mode = 0; } } ctype_off;
     if (RUNNING_ON_VALGRIND && declared_alloc > (static_cast<int64_t>(c.heap_budget_mib) << 20)) {
       // memcheck replaces operator new itself, so the budget above is not enforced there; apply the memory proviso up front
       a->skipped = true;
@@ -700,6 +702,7 @@ Outcome exec_c12(const C12Case& c, bool keep_log, Stats* stats) {
     for (const std::string& t : tags) stats->add("probe.tag:" + t);
     if (c.bystander) stats->add("probe.bystander");
     if (clk.reads) stats->add("probe.library_read_the_clock", clk.reads);
+    if (ctypes.calls) stats->add("probe.library_classified_characters_under_foreign_locale", ctypes.calls);
     if (c.via_file && !att[2].skipped) stats->add(att[2].ok ? "probe.file_source_load_accepted" : "probe.file_source_load_rejected");
     stats->add("base." + c.base.substr(0, c.base.find(':')));
   }
